@@ -838,6 +838,11 @@ pub fn build(tape: &[u16], profile: Profile, allow_latching: bool) -> Built {
                     s.push_str(f);
                     continue;
                 }
+                // with a zippychord dictionary the chord letters a-d mostly type themselves
+                if want_zippy && pos < 4 && g.t.chance(3, 4) {
+                    s.push_str(" _");
+                    continue;
+                }
             }
             let ctx = Ctx {
                 depth: 0,
@@ -922,11 +927,17 @@ pub fn build(tape: &[u16], profile: Profile, allow_latching: bool) -> Built {
         g.feat("zippy");
         let mut f = String::new();
         let n = g.t.range(1, 4);
-        let words = ["ab\tabba", "abc\talphabet", "cd\tcould", "ad\tand", "bc\tBecause", "ab c\table to come"];
+        // characters typed through output-character-mappings (shift, altgr, both, no-erase)
+        let mapped = g.t.chance(1, 2);
+        let words: &[&str] = if mapped {
+            &["ab\tabba", "abc\talpha*bet", "cd\tcould!", "ad\ta@d", "bc\tBecause~", "ab c\table *to come", "bd\t*"]
+        } else {
+            &["ab\tabba", "abc\talphabet", "cd\tcould", "ad\tand", "bc\tBecause", "ab c\table to come"]
+        };
         let mut used: Vec<&str> = vec![];
         let mut lines: Vec<&str> = vec![];
         for _ in 0..n {
-            let w = *g.t.choose(&words);
+            let w = *g.t.choose(words);
             let key = w.split('\t').next().unwrap();
             if used.contains(&key) {
                 continue;
@@ -947,10 +958,14 @@ pub fn build(tape: &[u16], profile: Profile, allow_latching: bool) -> Built {
         };
         g.info.timeouts.push(dl as u32);
         text.push_str(&format!(
-            "(defzippy zippy.txt on-first-press-chord-deadline {dl} idle-reactivate-time {} smart-space {})\n",
+            "(defzippy zippy.txt on-first-press-chord-deadline {dl} idle-reactivate-time {} smart-space {}{})\n",
             (dl + 5).min(65535),
-            *g.t.choose(&["none", "add-space-only", "full"])
+            *g.t.choose(&["none", "add-space-only", "full"]),
+            if mapped { " output-character-mappings (! S-1 @ AG-2 * S-AG-8 ~ (no-erase S-grv))" } else { "" }
         ));
+        if mapped {
+            g.feat("zippy-character-mappings");
+        }
         g.info.timeouts.push(dl as u32 + 5);
     }
     let _ = g.has_chords_v2;
